@@ -34,25 +34,25 @@ import (
 
 // Opts selects what kind of font is drawn.
 type Opts struct {
-	Kind      string // "glyf", "cff", "cid", or "" for a random choice
-	MinGlyphs int
-	MaxGlyphs int    // 0 = 40
-	CMap      string // "none", "4", "12", "both", "legacy" or "" random
-	Layout    string // "none", "subset" (GSUB 1.1/4.1 + GPOS 2.1, no GDEF), "" = none
-	NoNames   bool   // TrueType: Names == nil / CFF: names still needed (unique)
-	Plain     bool   // header fields in normal form only (no rule-exercising values)
-	IntCoords bool   // CFF: integer coordinates only
+	Kind        string // "glyf", "cff", "cid", or "" for a random choice
+	MinGlyphs   int
+	MaxGlyphs   int    // 0 = 40
+	CMap        string // "none", "4", "12", "both", "legacy" or "" random
+	Layout      string // "none", "subset" (GSUB 1.1/4.1 + GPOS 2.1, no GDEF), "" = none
+	NoNames     bool   // TrueType: Names == nil / CFF: names still needed (unique)
+	Plain       bool   // header fields in normal form only (no rule-exercising values)
+	IntCoords   bool   // CFF: integer coordinates only
 	NoComposite bool
 	FixedPitch  int // 0 random, 1 force proportional, 2 force fixed pitch
 }
 
 // Info describes what was generated (for coverage classes).
 type Info struct {
-	Kind     string
-	NGlyphs  int
-	CMap     string
-	Layout   string
-	Classes  []string
+	Kind      string
+	NGlyphs   int
+	CMap      string
+	Layout    string
+	Classes   []string
 	CodeToGID map[rune]glyph.ID
 }
 
